@@ -160,7 +160,23 @@ def make_service(P):
             v = svc.store[key]
             return iter([v, [v]])
 
+        def getbare(self, key):
+            return svc.store[key][1]
+
+        def streambare(self, key):
+            x = svc.store[key][1]
+            return iter([x, "|", x])      # the value itself as a stream item (not wrapped), twice, around a marker
+
     return svc, Echo()
+
+
+def consume(it):
+    """drain a remote iterator and close it HERE, in the client thread: an un-exhausted iterator left to the cyclic GC may be finalised inside
+    the multiplex server's own thread (client and daemon share this process), whose close() call then waits for that very thread"""
+    try:
+        return list(it)
+    finally:
+        it.close()
 
 
 def check_wire(fx, svc, name, x, is_core, pad, rec, seq):
@@ -184,8 +200,31 @@ def check_wire(fx, svc, name, x, is_core, pad, rec, seq):
         bat = outcome(do_batch)
         with svc.lock:
             recv_b = svc.received.pop(key, None)
-        strm = outcome(lambda: list(p.stream(key)))
+        strm = outcome(lambda: consume(p.stream(key)))
+        # the bare value (not wrapped in a list) as result, as stream item and as positional / keyword argument
+        bare = outcome(lambda: p.getbare(key))
+        sbare = outcome(lambda: consume(p.streambare(key)))
+        bres = outcome(lambda: p.echo(key, x, kw=x))
+        with svc.lock:
+            recv_bare = svc.received.pop(key, None)
     del svc.store[key]
+    if is_core:
+        for label, o, want in (("bare result", bare, x), ("bare streamed items", sbare, [x, "|", x]),
+                               ("bare positional argument", recv_bare[0][0] if recv_bare and recv_bare[0] else (RAISED, "-", "not delivered"), x),
+                               ("bare keyword argument", recv_bare[1].get("kw", (RAISED, "-", "missing")) if recv_bare else (RAISED, "-", "not delivered"), x)):
+            if is_raised(o) or not gen.deep_eq(o, want):
+                rec.violation("core-value-changed-on-wire:%s" % name, "%s (%s, compression=%s): core value %s arrives as %s as %s" % (
+                    name, fx.servertype, P.config.COMPRESSION, core.short(want, 200), show(o), label), pay)
+                return
+    elif not is_raised(bare):
+        if is_raised(sbare) or not gen.deep_eq(sbare, [bare, "|", bare]):
+            rec.violation("arg-result-mapping-differs-on-wire:%s" % name, "%s: value %s arrives as %s as a bare result but streaming it item by item gives %s" % (
+                name, core.short(x, 200), core.short(bare, 200), show(sbare)), pay)
+            return
+        if recv_bare is None or not gen.deep_eq(recv_bare[0][0], bare) or not gen.deep_eq(recv_bare[1].get("kw"), bare):
+            rec.violation("arg-result-mapping-differs-on-wire:%s" % name, "%s: value %s arrives as %s as a bare result but as %s as bare arguments" % (
+                name, core.short(x, 200), core.short(bare, 200), core.short(recv_bare, 200)), pay)
+            return
     if is_core:
         if recv is None or is_raised(res):
             rec.violation("core-value-refused-on-wire:%s" % name, "%s: call with core value %s failed: %s" % (name, core.short(x), show(res)), pay)
